@@ -1,9 +1,26 @@
 import Tbfmm.Spec.Fmm
+import Tbfmm.Model.Coord
 /-!
 Line-protocol driver for the executable model (see DESIGN.md §4.1).  Reads commands on stdin, writes
 canonical text on stdout; the C++ harness reads the same commands and writes the same format.
 -/
 open Tbfmm
+
+/-- state of the float-stream cases (h_tree harness): arbitrary box, float/double coordinates and data -/
+structure FState where
+  active : Bool := false
+  real64 : Bool := true
+  data64 : Bool := true
+  nData : Nat := 3
+  nRhs : Nat := 1
+  center : List Nat := []        -- RealType bit patterns
+  width : List Nat := []
+  input : List (List Nat) := []  -- per particle: RealType bit patterns of the NbData input values
+  stored : Array (List Nat) := #[]   -- per original index: DataType bit patterns as stored in the tree
+  rhs : Array (List Int) := #[]
+  bs : Nat := 1
+  mode : Bool := false
+deriving Inhabited
 
 structure DState where
   D : Nat := 3
@@ -13,6 +30,7 @@ structure DState where
   tree : Tree := default
   st : State := {}
   skip : Bool := false     -- after `build auto=1` (block size chosen by the library): nothing to model
+  f : FState := {}
 
 def natsOf (ts : List String) : List Nat := ts.map String.toNat!
 
@@ -94,6 +112,33 @@ def idxCommand (D : Nat) (periodic : Bool) : List String → List String
   | ["consts"] => [s!"I consts {2^D} {6^D - 3^D} {3^D - 1}"]
   | other => ["bad-op idx " ++ " ".intercalate other]
 
+def ofHex (s : String) : Nat := s.foldl (fun acc c =>
+  acc * 16 + (if c.isDigit then c.toNat - '0'.toNat else if 'a' ≤ c ∧ c ≤ 'f' then c.toNat - 'a'.toNat + 10 else c.toNat - 'A'.toNat + 10)) 0
+
+def f64 (b : Nat) : Float := Float.ofBits b.toUInt64
+def f32 (b : Nat) : Float32 := Float32.ofBits b.toUInt32
+
+/-- RealType bit pattern → DataType bit pattern (the conversion done when the tree copies the input) -/
+def realToData (real64 data64 : Bool) (b : Nat) : Nat :=
+  if real64 == data64 then b
+  else if real64 then (f64 b).toFloat32.toBits.toNat      -- double → float (rounds)
+  else (f32 b).toFloat.toBits.toNat                        -- float → double (exact)
+
+/-- grid coordinate of a position given as a bit pattern of width `src64`, in a tree whose
+    coordinate type is `real64`: `getTreeCoordinate(pos - corner)` with the usual arithmetic conversions -/
+def coordOfBits (real64 src64 : Bool) (H : Nat) (centerB widthB posB : Nat) : Nat :=
+  if real64 then
+    let c := boxCorner (f64 centerB) (f64 widthB); let lw := leafWidth (f64 widthB) H
+    let x : Float := if src64 then f64 posB else (f32 posB).toFloat
+    treeCoordinate (x - c) (f64 widthB) lw H
+  else
+    let c := boxCorner (f32 centerB) (f32 widthB); let lw := leafWidth (f32 widthB) H
+    let rel : Float32 := if src64 then ((f64 posB) - c.toFloat).toFloat32 else (f32 posB) - c
+    treeCoordinate rel (f32 widthB) lw H
+
+def FState.leafIdxOf (f : FState) (D H : Nat) (src64 : Bool) (bits : List Nat) : Nat :=
+  encode D (H - 1) ((List.range D).map fun d => coordOfBits f.real64 src64 H (f.center.getD d 0) (f.width.getD d 0) (bits.getD d 0))
+
 def kv (ts : List String) (key : String) (dflt : Nat) : Nat :=
   match ts.find? (fun t => t.startsWith (key ++ "=")) with
   | some t => ((t.drop (key.length + 1)).toString).toNat!
@@ -112,23 +157,92 @@ def step (d : DState) (line : String) : DState × List String :=
     let idx := (List.range n).map fun i => encode d.D (d.H - 1) ((cs.drop (i * d.D)).take d.D)
     ({ d with leafIdx := idx }, [])
   | "mark" :: x => (d, ["M " ++ " ".intercalate x])
+  | "ftree" :: ts =>
+    let D := kv ts "D" 3; let H := kv ts "H" 3
+    let vals := (ts.filter fun t => !t.contains '=').map ofHex
+    let f : FState := { active := true, real64 := kv ts "real" 64 == 64, data64 := kv ts "data" 64 == 64,
+                        nData := D + kv ts "nextra" 0, nRhs := kv ts "nrhs" 1, center := vals.take D, width := (vals.drop D).take D }
+    let cf := (List.range D).map fun k =>
+      let cb := f.center.getD k 0
+      let wb := f.width.getD k 0
+      let (a, b) : Nat × Nat :=
+        if f.real64 then ((boxCorner (f64 cb) (f64 wb)).toBits.toNat, (leafWidth (f64 wb) H).toBits.toNat)
+        else ((boxCorner (f32 cb) (f32 wb)).toBits.toNat, (leafWidth (f32 wb) H).toBits.toNat)
+      hexOf a ++ " " ++ hexOf b
+    ({ d with D := D, H := H, periodic := kv ts "periodic" 0 == 1, f := f }, ["CF " ++ " ".intercalate cf])
+  | "fparts" :: n :: vs =>
+    let n := n.toNat!
+    let vals := vs.map ofHex
+    let input := (List.range n).map fun i => (vals.drop (i * d.f.nData)).take d.f.nData
+    ({ d with f := { d.f with input := input } }, [])
   | "idx" :: rest => (d, idxCommand d.D d.periodic rest)
   | "build" :: ts =>
+    if d.f.active then
+      let f := d.f
+      let leafIdx := f.input.map fun bits => f.leafIdxOf d.D d.H f.real64 bits
+      let stored := (f.input.map fun bits => bits.map (realToData f.real64 f.data64)).toArray
+      let t := Tree.build d.D d.H (kv ts "bs" 1) (kv ts "mode" 0 == 1) leafIdx
+      let zeros : Array (List Int) := Array.replicate f.input.length (List.replicate f.nRhs (0 : Int))
+      let f' : FState := { f with stored := stored, rhs := zeros, bs := kv ts "bs" 1, mode := kv ts "mode" 0 == 1 }
+      ({ d with tree := t, st := {}, f := f' }, []) else
     if kv ts "auto" 0 == 1 then ({ d with skip := true }, []) else
     let t := Tree.build d.D d.H (kv ts "bs" 1) (kv ts "mode" 0 == 1) d.leafIdx
     ({ d with tree := t, st := {}, skip := false }, [])
+  | ["dump", "leaves"] =>
+    let lf := d.tree.pgroups.zipIdx.flatMap fun (g, gi) => g.map fun l =>
+      s!"LF {gi} {l.idx} {joinNat (decode d.D (d.H - 1) l.idx)} : {joinNat (sortNat l.parts)}"
+    let leafOf := fun p => ((d.tree.stored.find? (·.2 == p)).getD (0, 0)).1
+    let ps := (List.range d.f.stored.size).map fun p =>
+      s!"P {p} {leafOf p} " ++ " ".intercalate ((d.f.stored.getD p []).map hexOf)
+    (d, lf ++ ps)
+  | ["dump", "groups"] =>
+    (d, (List.range d.tree.H).flatMap fun l =>
+      (d.tree.level l).zipIdx.map fun (g, gi) => s!"S G {l} {gi} {firstOf g} {lastOf g} {g.length} : {joinNat g}")
+  | ["dump", "zero"] =>
+    let nzc := ((List.range d.tree.H).flatMap fun l => (d.tree.level l).flatMap fun g => g.filter fun c => d.st.m l c != 0 || d.st.l l c != 0).length
+    (d, [s!"Z {nzc} {((d.f.rhs.toList.flatMap id).filter (· != 0)).length}"])
+  | ["dump", "rhs"] =>
+    (d, (List.range d.f.rhs.size).map fun p => " ".intercalate (["R", toString p] ++ (d.f.rhs.getD p []).map toString))
+  | ["digest"] => (d, [])
+  | "fexec" :: ts =>
+    if !d.f.active then (d, ["bad-op fexec"]) else
+    if d.f.nRhs == 0 then (d, ["EX"]) else
+    let cs := executeSeq d.tree d.periodic (kv ts "flags" 63) (kv ts "upper" (if d.periodic then 1 else 2))
+    let po := d.tree.partsOf
+    let st0 : State := { d.st with rhs := {} }
+    let st := applyCalls (fun _ => 1) (d.H - 1) po po st0 cs
+    let rhs := d.f.rhs.mapIdx fun p r => match r with
+      | [] => []
+      | r0 :: rest => (r0 + (st.r p : Int)) :: rest
+    ({ d with st := st, f := { d.f with rhs := rhs } }, ["EX"])
+  | "move" :: p :: cs =>
+    let p := p.toNat!
+    let nb := cs.map ofHex          -- DataType bit patterns
+    let old := d.f.stored.getD p []
+    ({ d with f := { d.f with stored := d.f.stored.setIfInBounds p (nb ++ old.drop nb.length) } }, [])
+  | ["rebuild"] =>
+    -- TbfTree::rebuild: gather data and results by original index, rebuild from the stored positions, scatter the results back
+    let f := d.f
+    let leafIdx := f.stored.toList.map fun bits => f.leafIdxOf d.D d.H f.data64 bits
+    let t := Tree.build d.D d.H f.bs f.mode leafIdx
+    ({ d with tree := t, st := {} }, [])
+  | ["export", "data"] =>
+    (d, (List.range d.f.stored.size).map fun p =>
+      " ".intercalate (["XD", toString p, if d.f.data64 then "64" else "32"] ++ (d.f.stored.getD p []).map hexOf))
+  | ["export", "rhs"] =>
+    (d, (List.range d.f.rhs.size).map fun p => " ".intercalate (["XR", toString p] ++ (d.f.rhs.getD p []).map toString))
   | ["dump", "structure"] => (d, dumpStructure d.tree)
   | ["dump", "values"] => (d, dumpValues d.tree d.st)
   | "exec" :: "seq" :: ts =>
     let cs := executeSeq d.tree d.periodic (kv ts "flags" 63) (kv ts "upper" 2)
     let po := d.tree.partsOf
-    ({ d with st := applyCalls (d.H - 1) po po d.st cs }, cs.map printCall)
+    ({ d with st := applyCalls weight (d.H - 1) po po d.st cs }, cs.map printCall)
   | "spec" :: "elems" :: ts =>
     (d, (specElems d.D d.H d.periodic (shapeOf d.leafIdx) (kv ts "flags" 63) (kv ts "upper" 2)).map printElem)
   | "exec" :: "omp" :: ts =>
     let cs := executeOmp d.tree d.periodic (kv ts "flags" 63) (kv ts "upper" 2)
     let po := d.tree.partsOf
-    ({ d with st := applyCalls (d.H - 1) po po d.st cs }, cs.map printCall)
+    ({ d with st := applyCalls weight (d.H - 1) po po d.st cs }, cs.map printCall)
   | "find" :: "cell" :: l :: is =>
     let l := l.toNat!
     (d, (natsOf is).map fun i => match findGroup (d.tree.level l) i with
